@@ -92,7 +92,9 @@ def side_checks(ctx, env, res, opts, side, k):
     if "shape_error" in cert:
         ctx.fail("%s:multiplier-shape" % side, cert["shape_error"])
         return None
-    tol = k * (cert["scale"] + abs(cert["const"]))
+    # 3 k like the cross-back-end value comparisons of this check: on models with three LMIs CLARABEL's dual residual was seen at
+    # 1.5 k (3.4e-4 for terms of size 11.5) on BOTH back-ends, which is the accuracy of the solver, not a property of a wrapper
+    tol = 3 * k * (cert["scale"] + abs(cert["const"]))
     ok = True
     if cert["max_nonconst"] > tol:
         ctx.fail("%s:certificate-identity" % side, "certificate identity residual %.3e (tol %.1e) with the multipliers "
